@@ -247,10 +247,10 @@ Definition sf_to_b64 (x : SpecFloat.spec_float) : binary64 :=
   | SpecFloat.S754_infinity s => Binary.B754_infinity 53 1024 s
   | SpecFloat.S754_nan => f64_nan
   | SpecFloat.S754_finite s m e =>
-      match SpecFloat.bounded 53 1024 m e as b return SpecFloat.bounded 53 1024 m e = b -> binary64 with
-      | true => fun H => Binary.B754_finite 53 1024 s m e H
-      | false => fun _ => f64_nan
-      end (eq_refl _)
+      match Sumbool.sumbool_of_bool (SpecFloat.bounded 53 1024 m e) with
+      | left H => Binary.B754_finite 53 1024 s m e H
+      | right _ => f64_nan
+      end
   end.
 
 (* correctly rounded mx / my *)
